@@ -171,6 +171,41 @@ def main():
     run_target('http-header-parser', HEADERS, lambda b: Response().parse(b) if b'\n' in b else None, (ProtocolError,), rnd, n, bad, stats)
     run_target('http-fields-lenient', HEADERS, lambda b: NameValueRecord(encoding='latin-1').parse(b, strict=False), (), rnd, n, bad, stats)
     run_target('ftp-reply-parser', REPLIES, lambda b: Reply().parse(b), (ProtocolError,), rnd, n, bad, stats)
+    # the whole HTTP reader (status line, header block, body framing, content decoding) on hostile traffic: the real Stream over an in-memory connection that hands the
+    # bytes out in small pieces; only ProtocolError / NetworkError may come out (they are per-URL errors).  Includes LONG RUNS of a repeated element -- interim 1xx
+    # responses, header lines, chunks, chunk extensions, trailer lines -- because a reader that recurses or accumulates per element fails only on long runs.
+    from wpull.protocol.http.stream import Stream
+    from wpull.protocol.http.request import Request
+    from wpull.errors import NetworkError
+    class _Conn:
+        def __init__(self, data): self.d = data; self.p = 0; self.c = False
+        def closed(self): return self.c
+        def close(self): self.c = True
+        def read(self, n=-1):
+            if False: yield
+            k = min(len(self.d), self.p + (1021 if n is None or n < 0 else min(n, 1021))); r = self.d[self.p:k]; self.p = k; return r
+        def readline(self):
+            if False: yield
+            i = self.d.find(b'\n', self.p); k = len(self.d) if i < 0 else i + 1; r = self.d[self.p:k]; self.p = k
+            if len(r) > 65536: raise ValueError('Line is too long')
+            return r
+    def through_stream(b):
+        st = Stream(_Conn(b)); req = Request('http://h.example/x')
+        resp = shim.run(st.read_response()); shim.run(st.read_body(req, resp, file=io.BytesIO()))
+    ok = b'HTTP/1.1 200 OK\r\nContent-Length: 5\r\n\r\nhello'
+    WIRE = [ok, b'HTTP/1.1 100 Continue\r\n\r\n' + ok, b'HTTP/1.1 200 OK\r\nTransfer-Encoding: chunked\r\nContent-Encoding: gzip\r\n\r\n5;x=y\r\nhello\r\n0\r\nT: v\r\n\r\n',
+            b'HTTP/1.1 301 Moved\r\nLocation: /y\r\nContent-Encoding: deflate\r\n\r\nxx', b'HTTP/1.0 200 OK\n\nbody until close']
+    LONG = [b'HTTP/1.1 100 Continue\r\n\r\n' * 3000 + ok, b'HTTP/1.1 103 Early Hints\r\nLink: </a>\r\n\r\n' * 1500 + ok, b'HTTP/1.1 102 Processing\n\n' * 5000 + ok,
+            b'HTTP/1.1 200 OK\r\n' + b'X: y\r\n' * 5000 + b'\r\n', b'HTTP/1.1 200 OK\r\nTransfer-Encoding: chunked\r\n\r\n' + b'1\r\na\r\n' * 20000 + b'0\r\n\r\n',
+            b'HTTP/1.1 200 OK\r\nTransfer-Encoding: chunked\r\n\r\n1' + b';e=f' * 10000 + b'\r\na\r\n0\r\n' + b'T: v\r\n' * 20000 + b'\r\n',
+            b'HTTP/1.1 200 OK\r\nX: a\r\n' + b' folded\r\n' * 3000 + b'Content-Length: 0\r\n\r\n']
+    run_target('http-stream', WIRE, through_stream, (ProtocolError, NetworkError), rnd, n // 4, bad, stats)
+    for w in LONG:
+        stats['http-stream-long-runs'] = stats.get('http-stream-long-runs', 0) + 1
+        try: through_stream(w)
+        except (ProtocolError, NetworkError): pass
+        except BaseException as e:
+            bad.append({'target': 'http-stream-long-runs', 'input': repr(w[:60]) + ' ... (%d bytes)' % len(w), 'problem': '%s escapes the HTTP reader on a long run of a repeated element: %s' % (type(e).__name__, str(e)[:80])})
     cases = sum(v for k, v in stats.items() if ':' not in k)
     doc = {'label': 'bounded', 'functions': ['wpull/protocol/ftp/ls/listing.py:ListingParser.parse_input', 'wpull/protocol/ftp/util.py:parse_machine_listing', 'wpull/decompression.py',
                                              'wpull/scraper/css.py:CSSScraper.scrape', 'wpull/scraper/javascript.py:JavaScriptScraper.scrape', 'wpull/robotstxt.py:RobotsTxtPool.load_robots_txt',
